@@ -257,3 +257,17 @@ Definition model_class_string (use_path_prefixes : bool) (title : option str) (n
   else
     let t := match title with Some (c :: r) => c :: r | _ => name end in
     match parent with [] => t | _ => pascal_case parent ++ pascal_case t end.
+
+(* ------------------------------------------------------------------------------------------------ 2g. project / package names *)
+(* Project.__init__ (openapi_python_client/__init__.py:69-70):
+     project_name = config.project_name_override or f"{utils.kebab_case(openapi.title).lower()}-client"
+     package_name = config.package_name_override or project_name.replace("-", "_")
+   (`or`: an empty override counts as absent). README: "the package name will be converted from the project name using the
+   standard convention (replacing `-`'s with `_`'s)" - the literal character replacement, nothing else. *)
+Definition nonempty_or (o : option str) (d : str) : str := match o with Some (c :: r) => c :: r | _ => d end.
+Definition replace_dash (s : str) : str := map (fun c => if c =? 45 then 95 else c) s.
+Definition client_suffix : str := s2l "-client".
+Definition project_name (proj_override : option str) (title : str) : str :=
+  nonempty_or proj_override (lower (kebab_case title) ++ client_suffix).
+Definition package_name (pkg_override proj_override : option str) (title : str) : str :=
+  nonempty_or pkg_override (replace_dash (project_name proj_override title)).
